@@ -279,6 +279,13 @@ func (runInfo *runInfoStruct) invokeDerefExpr(expr *ast.DerefExpr) {
 		runInfo.rv = nilValue
 		return
 	}
+	if moduleOf(runInfo.rv) != nil {
+		// a module is not a pointer a script may look behind: the struct behind it holds
+		// the module's tables and its lock
+		runInfo.err = newStringError(expr.Expr, "cannot deference a module")
+		runInfo.rv = nilValue
+		return
+	}
 	runInfo.rv = runInfo.rv.Elem()
 }
 
